@@ -89,8 +89,9 @@ BOUND = {
              "non-usual joint order (hier3, hier2, gauss2; all-spy and set A, counts (3,1,2), depth<=2); "
              "conditional-type facet: joints ml_sp (s in a likelihood and a prior), ml_2y (x in two likelihoods), hier3h (d "
              "in two priors), prior2 (no data: plain Distribution): the non-Posterior block x {spy, MH, on prior2 also "
-             "MALA, NUTS} x others {all spy, set A} x counts {(1..),(3,1,2)}, depth<=2, plus the legacy cells of "
-             "these assignments",
+             "MALA, NUTS} x others {all spy, set A} x counts {(1..),(3,1,2)}, depth<=2, plus the cuqi.sampler.Gibbs cells of "
+             "these assignments that have no gradient kernel (all-spy others only when the non-Posterior block is "
+             "not a spy)",
     "thorough": "as quick but: all assignments of {spy,conj|rto,mh,nuts,mala} kinds (hier3c: those with a NUTS/MALA "
                 "block); num_sampling_steps: full {1,2,3}^blocks product (3-block cells with MH: the 3 all-equal "
                 "patterns + the 6 permutations of (1,2,3); 3-block cells with NUTS/MALA: the 3 all-equal patterns + the 3 "
@@ -489,6 +490,47 @@ GRAD_KINDS = ("nuts", "mala")   # kernels that read (and cache) the gradient of 
 DEC_KINDS = ("mh", "nuts", "mala")   # kernels with uniform draws (decision points)
 MALA_SCALE = 0.0625
 
+# ---- facet "value and representation of a block's configured step count" (HybridGibbs.num_sampling_steps) ----
+# cell["nsteps"][i]: the number (None: no number); cell["nrep"][i]: how it is written into the user's dict.
+#   int   - python int                      np64 - numpy.int64                 float - python float with that value
+#   bool  - True / False (an int subclass)  none - the key is listed with the value None
+# a block with nsteps None and another representation than "none" is NOT listed in the dict (missing key)
+COUNT_REPS = ("int", "np64", "float", "bool", "none")
+
+
+def _count_object(n, rep):
+    """The object written into the user's num_sampling_steps dict for one block."""
+    if rep == "none":
+        return None
+    if rep == "np64":
+        return np.int64(n)
+    if rep == "float":
+        return float(n)
+    if rep == "bool":
+        if n not in (0, 1):
+            raise HarnessError("a bool count is 0 or 1, not %r" % (n,))
+        return bool(n)
+    if rep != "int":
+        raise HarnessError("unknown count representation %r" % (rep,))
+    return int(n)
+
+
+def _count_meaning(n, rep="int"):
+    """Transitions per sweep the configuration asks for (documented meaning: 'the number of times the sampler will
+    call its step method in each Gibbs step. Default is 1'): the integer value, whatever its representation - 0 = the
+    block is held at its value; a block that is not listed, or listed with None, has the default 1.  (A representation
+    the library refuses ends the history as a refusal; a run that does not refuse must make exactly this number.)"""
+    if n is None:
+        return 1
+    return int(n)
+
+
+def _cell_counts(cell, nb):
+    """[(number | None, representation)] per block (joint order) of a HybridGibbs cell."""
+    ns = cell.get("nsteps") or [1] * nb
+    rp = cell.get("nrep") or ["int"] * nb
+    return list(zip(ns, rp))
+
 
 # ========================================================================================
 # recording block samplers
@@ -700,8 +742,10 @@ def run_history(cell, model, seq, decisions):
                 samplers = {model.order[i]: _make_hybrid_sampler(cell["assign"][i], model.order[i], model, recorder,
                                                                  codes[i], cell.get("nuts_depth", 0))
                             for i in sorder}
-                nss = {model.order[i]: int(cell["nsteps"][i]) for i in norder if cell["nsteps"][i] is not None}
-                if not nss:
+                counts = _cell_counts(cell, nb)
+                nss = {model.order[i]: _count_object(*counts[i]) for i in norder
+                       if counts[i][0] is not None or counts[i][1] == "none"}
+                if not nss and not cell.get("empty_dict"):
                     nss = None          # no step counts given at all: the documented default (1 everywhere)
                 G = cuqi.experimental.mcmc.HybridGibbs(joint, samplers, nss)
                 obs["initial"] = {b: np.array(G.current_samples[b], dtype=float, copy=True).ravel()
@@ -850,6 +894,12 @@ class Judge:
         ident = list(range(nb))
         permuted = (cell.get("sorder") or ident) != ident or (cell.get("norder") or ident) != ident
         self.order_facet = ",dict-order=permuted" if permuted else ""
+        # facet "value / representation of the block's configured step count" (HybridGibbs)
+        counts = _cell_counts(cell, nb) if cell["iface"] == "hybrid" else [(1, "int")] * nb
+        self.nsteps = {b: _count_meaning(*c_) for b, c_ in zip(model.order, counts)}
+        self.count_facet = {b: (",count=0" if self.nsteps[b] == 0 else "")
+                            + (",count-repr=%s" % c_[1] if c_[1] != "int" else "")
+                            for b, c_ in zip(model.order, counts)}
         # facet "key of the sampling strategy the block is listed under" (legacy; empty for plain names)
         self.key_facet = {b: "" for b in model.order}
         for key in cell.get("skeys") or []:
@@ -924,8 +974,9 @@ class Judge:
         n_norm = n_gam = spy_j = 0
         compared = 0
         assign = dict(zip(model.order, cell["assign"]))
-        nsteps = {b: (1 if n_ is None else int(n_))         # a block without a given count: the documented default 1
-                  for b, n_ in zip(model.order, cell.get("nsteps") or [1] * len(model.order))}
+        # transitions per visit: the configured integer (0: the block is HELD at its value - no transition, the other
+        # blocks condition on that constant value, the stored samples repeat it); not listed / None: the default 1
+        nsteps = self.nsteps
         n_exp = 0
         ndec = 0
         for oi, op in enumerate(seq):
@@ -952,7 +1003,8 @@ class Judge:
                     for b in model.order:
                         for t in range(nsteps[b]):
                             if ei >= len(events) or ei >= obs["ops"][oi]["n_events"]:
-                                self.fail("sweep", "missing-transition" + self.order_facet + self.key_facet[b],
+                                self.fail("sweep", "missing-transition" + self.order_facet + self.key_facet[b]
+                                          + self.count_facet[b],
                                           "block %r: transition %d of %d of sweep %d in op %d was not made" %
                                           (b, t + 1, nsteps[b], sw, oi))
                                 return compared
@@ -967,7 +1019,16 @@ class Judge:
                             if ev["block"] != b:
                                 prev_b = events[ei - 2]["block"] if ei >= 2 else None
                                 facet = ("transition-count" if (t > 0 or ev["block"] == prev_b) else "block-order")
-                                self.fail("sweep", facet + self.order_facet + self.key_facet[b],
+                                if nsteps.get(ev["block"]) == 0:
+                                    # a block configured with 0 transitions (held at its value) was advanced
+                                    self.fail("sweep", "transition-count" + self.order_facet
+                                              + self.count_facet[ev["block"]],
+                                              "the sampler of block %r ran although 0 transitions per sweep are "
+                                              "configured for it (the block is to keep its value); expected a transition "
+                                              "of block %r (step %d of the configured %d)" %
+                                              (ev["block"], b, t + 1, nsteps[b]))
+                                    return compared
+                                self.fail("sweep", facet + self.order_facet + self.key_facet[b] + self.count_facet[b],
                                           "expected a transition of block %r (step %d of the configured %d), the sampler "
                                           "of block %r ran" % (b, t + 1, nsteps[b], ev["block"]))
                                 return compared
@@ -1190,7 +1251,7 @@ class Judge:
             snap = obs["ops"][oi]
             if snap["n_events"] != ei:
                 ev = events[ei]
-                self.fail("sweep", "extra-transition" + self.order_facet,
+                self.fail("sweep", "extra-transition" + self.order_facet + self.count_facet.get(ev["block"], ""),
                           "operation %d made %d block transitions, the reference sweep makes %d (first extra: block %r)"
                           % (oi, snap["n_events"], ei, ev["block"]))
                 return compared
@@ -1204,8 +1265,11 @@ class Judge:
                     return compared
                 if not np.array_equal(got, want):
                     j = int(np.argmax(np.any(got != want, axis=0)))
-                    self.fail("stored-samples", "value", "block %r: stored sample %d is %s, the tuple after sweep %d is %s"
-                              % (b, j, got[:, j], j, want[:, j]), at_op=oi)
+                    self.fail("stored-samples", "value" + (self.count_facet[b] if nsteps[b] == 0 else ""),
+                              "block %r: stored sample %d is %s, the tuple after sweep %d is %s%s"
+                              % (b, j, got[:, j], j, want[:, j],
+                                 " (0 transitions configured: the block keeps its value)" if nsteps[b] == 0 else ""),
+                              at_op=oi)
                     return compared
                 if iface == "legacy" and op[2] > 0:
                     wwant = np.array([s[b] for s in warm_this]).T
@@ -1329,6 +1393,123 @@ def _order_cells(model, tier, k):
             an = [(gk if gk in model.real[b] else model.real[b][0]) for b in model.order]
             for so in ([rev] if quick else [p_ for p_ in perms if p_ != ident]):
                 yield dict(hyb(an, [3, 1, 2][:nb], so, so), full_tree=4)
+
+
+def _count_cells(model, tier, k):
+    """HybridGibbs, facet 'value and representation of a block's configured step count' (cuqi.sampler.Gibbs takes no
+    step counts).  Per block the count is one of {0, 1, 2, 3, block not listed, listed with None}: 0 HOLDS the block
+    (no transition: it keeps its value in the current and in the stored samples, the other blocks condition on that
+    constant value), a block that is not listed makes the default 1.  Crossed with the dict-order facet, with the
+    sampler class of the held block (HybridGibbs re-initialises every block sampler at every visit, NUTS through a path
+    of its own: the held value must survive that) and with the representation of the number (python int, numpy.int64,
+    float, bool)."""
+    quick = tier == "quick"
+    nb = len(model.order)
+    ident, rev = list(range(nb)), list(range(nb))[::-1]
+    perms = _perms(nb)
+    spy = ["spy"] * nb
+    MISSING, NONE = (None, "int"), (None, "none")
+
+    def I(n):
+        return (n, "int")
+
+    def rot(base):
+        base = list(base)[:nb]
+        return [base[-i:] + base[:-i] if i else list(base) for i in range(nb)]
+
+    def hyb(assign, pat, so=None, no=None, depth=2, empty=False):
+        nd = _ndec(assign)
+        c = {"iface": "hybrid", "model": model.name, "assign": list(assign), "nsteps": [p[0] for p in pat],
+             "depth": depth, "full_tree": 4 if quick else (8 if nd else 0), "cat": k,
+             "sorder": list(so or ident), "norder": list(no or ident)}
+        if any(p[1] != "int" for p in pat):
+            c["nrep"] = [p[1] for p in pat]
+        if empty:
+            c["empty_dict"] = True
+        if "nuts" in assign:
+            c["nuts_depth"] = 0
+        return c
+
+    first = {b: ([r for r in model.real[b] if r not in GRAD_KINDS] or ["spy"])[0] for b in model.order}
+    if model.name != "hier3c":
+        # ---- (1) all-spy blocks: the complete product of the count alphabet ----
+        for pat in itertools.product([I(0), I(1), I(2), I(3), MISSING, NONE], repeat=nb):
+            yield hyb(spy, pat, depth=2 if quick else 3)
+            if all(p == MISSING for p in pat):
+                yield hyb(spy, pat, empty=True)          # an empty dict instead of no dict
+            if not quick:
+                for so, no in ((rev, rev), (rev, ident), (ident, rev)):
+                    yield hyb(spy, pat, so, no)
+        # ---- (2) x dict-order facet: ALL pairs (strategy-dict permutation, step-dict permutation) ----
+        if quick:
+            holds = rot([I(0), I(3), I(2)])
+        else:
+            holds = [list(p) for p in itertools.product([I(0), I(2), MISSING], repeat=nb) if I(0) in p]
+        for pat in holds:
+            for so in perms:
+                for no in perms:
+                    if so != ident or no != ident:
+                        yield hyb(spy, pat, so, no)
+        for pat in ([MISSING, I(0), I(2)][:nb] if nb > 2 else [MISSING, I(0)], [I(0), NONE, MISSING][:nb]):
+            for so in perms:
+                yield hyb(spy, pat, so, rev)
+        # ---- (4) representation of the number (all-spy blocks) ----
+        def N(n):
+            return (n, "np64")
+
+        def F(n):
+            return (n, "float")
+
+        def B(n):
+            return (n, "bool")
+        if quick:
+            for pat in rot([N(0), N(1), N(2)]) + [[N(3), N(1), N(2)][:nb], [N(0)] * nb]:
+                yield hyb(spy, pat)
+                yield hyb(spy, pat, rev, rev)
+            for pat in itertools.product([B(0), B(1)], repeat=nb):
+                yield hyb(spy, pat)
+            for pat in [[F(1)] * nb] + rot([F(0), F(1), F(2)]):
+                yield hyb(spy, pat)
+            # one block in another representation, the others python ints
+            for i in range(nb):
+                for v in (N(0), N(2), F(0), F(1), F(2), B(0), B(1)):
+                    for base in ([3, 1, 2], [0, 2, 0]):
+                        pat = [I(n_) for n_ in base[:nb]]
+                        pat[i] = v
+                        yield hyb(spy, pat)
+        else:
+            for pat in itertools.product([I(0), I(2), N(0), N(2), F(0), F(2), B(0), B(1)], repeat=nb):
+                yield hyb(spy, pat)
+        setA = [first[b] for b in model.order]
+        for pat in rot([N(0), N(1), N(2)]) + rot([B(0), B(1), I(2)]):
+            yield hyb(setA, pat)
+    if quick and model.name == "hier3c":
+        return                      # quick: the gradient kernels on the 2-block joint only
+    # ---- (3) real sampler classes: the HELD block x every kernel it admits; the others spies / set A ----
+    base = [3, 1, 2][:nb]
+    if quick:
+        for i, b in enumerate(model.order):
+            for kd in model.real[b]:
+                for oth in ("spy", "A"):
+                    assign = [kd if j == i else ("spy" if oth == "spy" else first[o]) for j, o in enumerate(model.order)]
+                    yield hyb(assign, [I(0) if j == i else I(base[j]) for j in range(nb)])
+        # a gradient kernel / MH blocks moving while the other blocks are held
+        for gk in GRAD_KINDS:
+            for i, b in enumerate(model.order):
+                if gk in model.real[b]:
+                    assign = [gk if j == i else first[o] for j, o in enumerate(model.order)]
+                    yield hyb(assign, [I(2) if j == i else I(0) for j in range(nb)])
+        if all("mh" in model.real[b] for b in model.order):
+            for pat in rot([I(0), I(1), I(2)]):
+                yield hyb(["mh"] * nb, pat)
+    else:
+        pats = [[I(0) if j == i else I(base[j]) for j in range(nb)] for i in range(nb)]
+        pats += [[I(2) if j == i else I(0) for j in range(nb)] for i in range(nb)] if nb > 2 else []
+        for assign in _assignments(model, tier):
+            if all(a == "spy" for a in assign):
+                continue
+            for pat in pats:
+                yield hyb(assign, pat)
 
 
 def _init_cells(model, tier, k):
@@ -1557,7 +1738,7 @@ def _ctype_cells(name, tier, k):
 def _cost(c):
     """Rough relative cost of a cell (only used to ORDER the cells; the set of cells is not affected)."""
     nops = len(HYBRID_OPS if c["iface"] == "hybrid" else LEGACY_OPS)
-    per_sweep = sum((n_ or 1) for n_ in c["nsteps"]) if c.get("nsteps") else len(c["assign"])
+    per_sweep = (sum(_count_meaning(n_) for n_ in c["nsteps"]) or 1) if c.get("nsteps") else len(c["assign"])
     w = 1 + sum({"mh": 3, "mala": 3, "nuts": 14}.get(a, 0) for a in c["assign"])
     if _ndec(c["assign"]):
         w *= 1 + c["full_tree"] / 4.0
@@ -1621,6 +1802,8 @@ def _cells(tier, seed):
             yield c
         for c in _init_cells(model, tier, k):
             yield c
+        for c in _count_cells(model, tier, k):
+            yield c
     # ---- facet "keys of the legacy sampling strategy" x "joint order"; coupled hyper-parameters ----
     for mname in (("hier3", "hier3h", "hier2", "gauss2") if quick else ("hier3", "hier3h", "hier3m", "hier2", "gauss2")):
         for c in _key_cells(mname, tier, k):
@@ -1641,7 +1824,7 @@ def _count_decisions(cell, seq):
     # latter with probability 0 or 1, i.e. not a branch) and 2 + (2^j - 1) at doubling j
     D = int(cell.get("nuts_depth", 0))
     w = {"mh": 1, "mala": 1, "nuts": 1 if D == 0 else sum(2 + (2 ** j - 1) for j in range(D + 1))}
-    per_sweep = sum(w[a] * ((cell["nsteps"][i] or 1) if cell["nsteps"] else 1)
+    per_sweep = sum(w[a] * (_count_meaning(cell["nsteps"][i]) if cell["nsteps"] else 1)      # a held block: none
                     for i, a in enumerate(cell["assign"]) if a in w)
     if cell["iface"] == "hybrid":
         sweeps = sum(op[1] for op in seq)
@@ -1698,8 +1881,11 @@ def eval_cell(cell):
     res.traces += len(judge.histories)
     res.count("history_executions", nhist)
     if res.transitions == 0:
-        res.nontrivial = False
-        res.transitions += 1      # the (refused) construction was a transition on the real code
+        # no block transition at all: the construction / the calls were refused - or every block is configured with 0
+        # transitions (all held) and the sweeps were executed and their stored tuples compared
+        if not judge.histories:
+            res.nontrivial = False
+        res.transitions += 1      # the (refused) construction / the operation was a transition on the real code
     return res
 
 
